@@ -704,6 +704,13 @@ wait:
 			break wait
 		}
 	}
+	if o.WSStatus == "error" {
+		// the handlers compute asynchronously (reactive.Rerunner): give a resolver that should never have been
+		// started a moment to show up before the connection is torn down
+		for i := 0; i < 10 && atomic.LoadInt32(b.callsF)+atomic.LoadInt32(b.callsG) == 0; i++ {
+			time.Sleep(500 * time.Microsecond)
+		}
+	}
 	o.WSCallsF, o.WSCallsG = atomic.LoadInt32(b.callsF), atomic.LoadInt32(b.callsG)
 	cancel()
 	sock.Close()
@@ -716,9 +723,109 @@ func js(v interface{}) string {
 
 func nonZero(v *Val, m *MTy) bool { return !valEq(v, zeroVal(m)) }
 
+// search mode pins the argument type (and possibly the class) of the cases genCase makes
+var fixedTy *TyDesc
+var fixedClass string
+
+func pickTop(r *vh.Rng) *TyDesc {
+	if fixedTy != nil {
+		return fixedTy
+	}
+	return genTop(r)
+}
+
+func randomPlaces(r *vh.Rng, c *Case, fragPct, inlinePct int) {
+	for k := range c.Sends {
+		switch p := r.Intn(100); {
+		case p < fragPct:
+			c.Sends[k].Place = "fragment"
+		case p < fragPct+inlinePct:
+			c.Sends[k].Place = "inline"
+		}
+	}
+}
+
+// wireOf rebuilds the wire form of a case from its literal send ($nul stands for null).
+func wireOf(c *Case) *Lit {
+	for _, s := range c.Sends {
+		if s.Transport != "literal" {
+			continue
+		}
+		var un func(l *Lit) *Lit
+		un = func(l *Lit) *Lit {
+			if l.K == "var" {
+				return &Lit{K: "null"}
+			}
+			n := l.clone()
+			for i := range n.L {
+				n.L[i] = un(n.L[i])
+			}
+			for i := range n.O {
+				n.O[i].V = un(n.O[i].V)
+			}
+			return n
+		}
+		w := &Lit{K: "obj"}
+		for _, a := range s.Args {
+			w.O = append(w.O, LField{a.N, un(a.V)})
+		}
+		return w
+	}
+	return nil
+}
+
+// searchVariant makes one variant of a disagreeing case: the same wire value through every transport and place,
+// a fresh boundary-hugging value of the same argument type, or such a value with one mutation.
+func searchVariant(r *vh.Rng, seeds []Case) Case {
+	fixedTy, fixedClass = nil, ""
+	if len(seeds) == 0 {
+		c := genCase(r)
+		c.Origin = "search-fresh"
+		randomPlaces(r, &c, 30, 20)
+		return c
+	}
+	sd := seeds[r.Intn(len(seeds))]
+	k := r.Intn(10)
+	if k < 4 && sd.Class != "duplicate-field" && sd.Class != "default-on-required" {
+		if w := wireOf(&sd); w != nil {
+			m := mtyOf(sd.Ty.reflectType())
+			c := Case{Ty: sd.Ty, Class: sd.Class, Expect: sd.Expect, Sent: sd.Sent, NoEquiv: sd.NoEquiv, Origin: "search-rerender"}
+			c.Sends = append(c.Sends, sendLiteral(w), sendVariable(r, w), sendNested(r, w), sendVariable(r, w), sendNested(r, w))
+			hasNullTop := false
+			for _, f := range w.O {
+				if f.V.K == "null" {
+					hasNullTop = true
+				}
+			}
+			if !(sd.Class == "null-for-required" && hasNullTop) {
+				c.Sends = append(c.Sends, sendDefault(r, w, false))
+			}
+			if sd.Expect == "echo" && len(w.O) == len(m.Fields) {
+				_, w2 := genVal(r, m, 2)
+				c.Sends = append(c.Sends, sendOverride(r, w, w2))
+			}
+			randomPlaces(r, &c, 30, 20)
+			return c
+		}
+	}
+	fixedTy = sd.Ty
+	if k < 7 {
+		fixedClass = "valid"
+	} else if sd.Class != "valid" && r.Chance(60) {
+		fixedClass = sd.Class
+	} else {
+		fixedClass = "malformed"
+	}
+	c := genCase(r)
+	fixedTy, fixedClass = nil, ""
+	c.Origin = "search-retyped"
+	randomPlaces(r, &c, 30, 20)
+	return c
+}
+
 func genCase(r *vh.Rng) Case {
-	if !r.Chance(30) {
-		td := genTop(r)
+	if fixedClass == "valid" || (fixedClass == "" && !r.Chance(30)) {
+		td := pickTop(r)
 		m := mtyOf(td.reflectType())
 		v, w := genVal(r, m, 2)
 		c := Case{Ty: td, Class: "valid", Expect: "echo", Sent: v}
@@ -728,11 +835,14 @@ func genCase(r *vh.Rng) Case {
 		return c
 	}
 	cls := r.Pick(mutationClasses)
+	if fixedClass != "" && fixedClass != "malformed" {
+		cls = fixedClass
+	}
 	for try := 0; ; try++ {
 		if try > 300 {
 			cls, try = r.Pick(mutationClasses), 0
 		}
-		td := genTop(r)
+		td := pickTop(r)
 		m := mtyOf(td.reflectType())
 		_, w := genVal(r, m, 2)
 		switch cls {
@@ -793,11 +903,29 @@ func main() {
 	o := vh.ParseFlags()
 	log.SetOutput(ioutil.Discard) // server.go logs every refused request
 	run := vh.NewRun("C18", o)
-	run.Rule = "cases = (argument struct type, value or mutated wire form) sent through 1-5 transports (literal, variable, nested-variable, default, default-overridden); 70% in-range values, 30% malformed (17 mutation classes); distinct by JSON text of the case; non-trivial = valid case whose value differs from the zero value of its type, or malformed case (the mutation was applied)"
+	run.Rule = "cases = (argument struct type, value or mutated wire form) sent through 1-5 transports (literal, variable, nested-variable, default, default-overridden); 70% in-range values, 30% malformed (13 mutation classes); 30% of the sends put the field into a named or an inline fragment; every request also goes through graphql.HTTPHandler and over a JSON socket (subscribe or mutate); distinct by JSON text of the case; non-trivial = valid case whose value differs from the zero value of its type, or malformed case (the mutation was applied)"
 	r := vh.NewRng(o.Seed)
 
 	var cases []Case
-	if o.Replay != "" {
+	searching := o.Search != ""
+	if searching {
+		// failing-input search (oracle only): variants of the cases on which model and implementation disagreed
+		boundaryBias, nilChance = true, 45
+		var seeds []Case
+		if b, err := ioutil.ReadFile(o.Search); err == nil {
+			for _, line := range strings.Split(string(b), "\n") {
+				var w struct {
+					Case Case `json:"case"`
+				}
+				if strings.TrimSpace(line) != "" && json.Unmarshal([]byte(line), &w) == nil && w.Case.Ty != nil {
+					seeds = append(seeds, w.Case)
+				}
+			}
+		}
+		for i := 0; i < o.N; i++ {
+			cases = append(cases, searchVariant(r.Fork(), seeds))
+		}
+	} else if o.Replay != "" {
 		var c Case
 		if vh.ReadReplayCase(o.Replay, &c) {
 			c.Origin = "replay"
@@ -814,14 +942,7 @@ func main() {
 		for i := 0; i < o.N; i++ {
 			cr := r.Fork()
 			c := genCase(cr)
-			for k := range c.Sends {
-				switch p := cr.Intn(10); {
-				case p < 2:
-					c.Sends[k].Place = "fragment"
-				case p < 3:
-					c.Sends[k].Place = "inline"
-				}
-			}
+			randomPlaces(cr, &c, 20, 10)
 			cases = append(cases, c)
 		}
 	}
@@ -966,6 +1087,9 @@ func main() {
 		run.Count(js(c), nontrivial)
 		if len(obs) > 0 {
 			run.Sample(map[string]interface{}{"class": c.Class, "query": c.Sends[0].query(), "vars": c.Sends[0].Vars, "outcome": obs[0]})
+		}
+		if searching {
+			continue
 		}
 		terms = append(terms, fmt.Sprintf("(%d, mk_case %s %s)", idx, b.mty.coq(), vh.CoqList(sendTerms)))
 		if len(terms) >= shard {
